@@ -144,7 +144,7 @@ def decorate(rng, case, alns):
             iv = _pick_interval(rng, vobjs, L2, rng.randint(30, 90))
             if iv:
                 s, e = iv
-                calls = case["calls"][a["sample"]][c2]
+                calls = (case["calls"].get(a["sample"]) or case["calls"][case["samples"][0]])[c2]
                 h = rng.randrange(case["ploidy"])
                 alle = [(c["gt"][h] if c["gt"] is not None else 0) for c in calls]
                 seq, cig = synth.hap_walk(case["ref"][c2], vobjs, alle, s, e)
